@@ -11,7 +11,7 @@ D = decimal.Decimal
 CASES = {'quick': 8000, 'thorough': 120000}
 SMALL_BLOCKS = 4      # runner: every 4th case keeps its stores in 2..10-token blocks
 GATES = {
-    'quick': {'site:token-twice-in-batch': 50, 'site:consumed-node': 30, 'site:meta-update-attached': 30, 'cases_in_small_blocks': 50, 'evaluations': 4500, 'refused_calls_judged': 4500, 'site:attached-node-in-batch': 300, 'site:attached-node-single': 500,
+    'quick': {'site:token-twice-in-batch': 50, 'site:consumed-node': 30, 'site:claim-after-release': 200, 'site:meta-update-attached': 30, 'cases_in_small_blocks': 50, 'evaluations': 4500, 'refused_calls_judged': 4500, 'site:attached-node-in-batch': 300, 'site:attached-node-single': 500,
               'site:index-or-key': 700, 'site:size-mismatch': 200, 'site:raw-text': 200, 'site:cost-combination': 60, 'site:cost-attached': 100,
               'site:arithmetic-attached': 200, 'site:claim-refused': 300, 'site:payee-attached': 50, 'site:store-foreign-token': 100,
               'site:whole-store-child': 50, 'batch_positions_seen': 3},
@@ -115,7 +115,7 @@ GARBAGE = ['garbage', '', '"unterminated', '2000-13-45', 'TRUE1', '12x', '#', 'a
 def special_step(col, r, f, text, log):
     """One deliberately invalid call outside the catalog. Returns False to end the history."""
     kind = r.choice(['raw-text', 'raw-text', 'cost-combination', 'cost-attached', 'arithmetic-attached', 'claim-refused', 'claim-refused',
-                     'payee-attached', 'store-foreign-token', 'whole-store-child', 'token-twice-in-batch', 'consumed-node', 'meta-update-attached'])
+                     'payee-attached', 'store-foreign-token', 'whole-store-child', 'token-twice-in-batch', 'consumed-node', 'meta-update-attached', 'claim-after-release', 'claim-after-release'])
     donors = []
     call = None
     nodes = list(walker.walk(f))
@@ -193,6 +193,14 @@ def special_step(col, r, f, text, log):
             sel = [r.choice(cs)] + (r.sample(own, 1) if own else [])
             r.shuffle(sel)
             fn = r.choice([w.claim_interleaving_comments, w.unclaim_interleaving_comments])
+            if own and r.random() < 0.5:
+                # first release the list's comments (an accepted call), then ask the list to claim one of them together with a
+                # comment it cannot find: the refusal must not even have moved a placeholder
+                released = list(w.unclaim_interleaving_comments())
+                log.append('(setup) unclaim_interleaving_comments()')
+                sel = [r.choice(released), r.choice(cs)] if r.random() < 0.5 else [r.choice(cs), r.choice(released)]
+                fn = w.claim_interleaving_comments
+                col.count('claim_refusals_after_release')
             desc = f'{fn.__name__}(<{len(sel)} comments, one of another document>)'
             call = lambda: fn(sel)
         else:
@@ -232,6 +240,45 @@ def special_step(col, r, f, text, log):
             call = lambda: st.insert_before(toks[a], batch)
         else:
             call = lambda: st.replace(toks[a], next(t for t in batch if t.store_handle is not None))
+    elif kind == 'claim-after-release':
+        # a comment at the very start or end of a list (put there through the API where the document has none), released by the
+        # list, then offered back together with a comment the list cannot find: the refusal must not even have moved a placeholder
+        foreign = r.choice(_corpus.docs)[1]
+        cs = [t for t in foreign.token_store if isinstance(t, models.BlockComment)]
+        wr = [(p, m, getattr(m, a)) for p, m in walker.tree_models(f) for a, d, k in ops.catalog(type(m)) if k == 'raw_list_comments']
+        if not cs or not wr:
+            return True
+        p_, m_, w = r.choice(wr)
+        txns = [(p, m) for p, m in walker.tree_models(f) if isinstance(m, models.Transaction)]
+        try:
+            if txns and r.random() < 0.6:
+                # the gap between a transaction's meta list and its postings list: the comment is released by one of the two
+                # lists and offered to the other, whose claim has to move a placeholder across it
+                p_, m_ = r.choice(txns)
+                mw, pw = m_.raw_meta_with_comments, m_.raw_postings_with_comments
+                first = next((x for x in list(mw) + list(pw) if hasattr(x, 'indent')), None)
+                c = models.BlockComment.from_value('offered back', indent=(first.indent if first is not None else '') or '    ')
+                if r.random() < 0.5:
+                    pw.insert(0, c)
+                    pw.unclaim_interleaving_comments([c])
+                    w = mw
+                else:
+                    mw.append(c)
+                    mw.unclaim_interleaving_comments([c])
+                    w = pw
+                col.count('claim_after_release_across_lists')
+            else:
+                first = next((x for x in w if hasattr(x, 'indent')), None)
+                ind = first.indent if first is not None else ('' if isinstance(m_, models.File) else '    ')
+                c = models.BlockComment.from_value('offered back', indent=ind)
+                w.insert(r.choice([0, len(w)]), c)
+                w.unclaim_interleaving_comments([c])
+        except (ValueError, IndexError):
+            return True
+        log.append(f'(setup) {p_}: insert a comment at one end of a list, release it')
+        sel = [c, r.choice(cs)] if r.random() < 0.5 else [r.choice(cs), c]
+        desc = f'{p_}.claim_interleaving_comments(<the released comment and one of another document>)'
+        call = lambda: w.claim_interleaving_comments(sel)
     elif kind == 'meta-update-attached':
         # a batch for meta.update() / raw_meta.update() whose last entry is a node that lives elsewhere: nothing may be written
         owners = [(p, m) for p, m in nodes if isinstance(m, mbase.RawTreeModel) and ops.desc_of(type(m), 'meta') is not None]
